@@ -72,6 +72,20 @@ claim("C02", "Coq proof (decoded protected headers keep the received bytes at ev
       "Theorems: protected_from_bstr stores exactly the received byte string and protected_cbor_bstr returns it whatever the parsed header is; for each of the eight message types and SuppPubInfo the slot is retained on decode and re-emitted on encode; an inductive invariant shows every protected header nested anywhere inside any decoded header/message (counter-signatures, signers, nested recipients, KDF) carries retained bytes; two encodings that parse to the same value give the same parsed view, and h'' / h'a0' both give the empty view. The implementation is run on header contents in >= 4 encodings (widths, indefinite lengths, key order, empty forms) in ten carrier/nesting shapes: retained bytes, re-encoded bytes, and the bytes handed to tbs/tbm/aad helpers are compared with the wire bytes and an independent Python Sig/MAC/Enc_structure.",
       COMMON_NOTE, "DESIGN.md 7 (C02)")
 
+
+claim("C01", "Coq proof of panic-freedom / totality of the model (every index, remove, unwrap/expect, assert of the Rust code is an explicit Panic branch; decoders, byte entry points, encoders, helpers on decoded values) and of the protected-nesting bound, PARTIAL; runtime behaviour (stack, time, memory) explored by the harness on a 2 MiB thread",
+      "Theorems: every value-level decoder and every byte-level entry point (untagged/tagged) returns Ok or Err for every input - never Panic, never OutOfFuel (fuel sufficiency proved); every encoder is total on every in-memory value; on decoded messages the tbs/verify/MAC/decrypt helpers do not panic under their documented preconditions and panic exactly where documented otherwise; protected-header re-parsing is bounded by the budget read from the source (16, F1 repair). Partial by nature: stack depth per frame, allocation and wall time are not expressible in the model; they are explored by running exhaustive short inputs for all entry points, mutated structured inputs, CBOR nesting 254..300, declared-length bombs, protected-nesting depth up to 5000 (10^5 thorough) and inputs up to 1 MiB (16 MiB thorough) on a default-size thread, detecting panics, aborts and hangs.",
+      COMMON_NOTE, "DESIGN.md 7 (C01), 8 (F1)")
+claim("C06", "Coq proof (for any builder state at creation time and any later state that keeps protected/payload/signature: encode, decode, verify hands the closure exactly the stored signature/tag/ciphertext and the bytes the creator was given; injectivity gives sensitivity) + builder-history correspondence with independent Python structures",
+      "Theorems for all seven creating builders (Sign1 embedded/detached, Sign with signer index, Mac0, Mac, Encrypt0, Encrypt, recipient): if the creator was given tbs in state st and the message later keeps its protected header, payload and signature, then after to_value/from_value (and to_vec/from_slice, tagged or not, for wire-normal values) the verify/decrypt helper returns exactly f(stored signature, tbs); a failing fallible creator yields its error and no message; any change to context, protected headers, AAD or payload changes the bytes. Decode success is a hypothesis (conclusion of C11 where proved). Implementation: generated builder histories with create calls, then encode (tagged/untagged), decode, verify with equal and perturbed AAD, compared with the model and with Python-computed structures.",
+      COMMON_NOTE, "DESIGN.md 7 (C06)")
+claim("C07", "Coq proof, PARTIAL with one known class (byte layer: parser output is in normal form and re-serialise/re-parse is the identity outside tag-2/3-over-short-bstr, witness proved; value layer fixed point for Label, PartyInfo, CoseKey, CoseKeySet, ClaimsSet; protected slots verbatim) + decode/encode/decode/encode run on every accepted generated input of every type",
+      "Theorems: from_reader output satisfies value_nf0 and depth <= 256; for values without the bad-bignum shape, from_reader (ser v) = v; decode=>encode=>decode fixed point at value and byte level for the five header-free types; F4 witness. Missing as a theorem: the field-by-field fixed point of unprotected Header maps (hence of message types); decided there by the correspondence run: for every accepted input (structured, mutated, non-canonical), the implementation's decode(encode(decode b)) = decode b and second encoding = first, and its bytes equal the model's.",
+      COMMON_NOTE, "DESIGN.md 7 (C07), 8 (F4)")
+claim("C11", "Coq proof, PARTIAL (full encode/decode round trip for Label, PartyInfo, CoseKey, CoseKeySet, ClaimsSet; protected-slot shape, is_empty <-> all fields empty, distinct keys and totality of all encoders) + three-way run: implementation vs model vs independent Python encoder, decode-back on the implementation, definite-length check by an independent parser",
+      "Theorems: well-formed keys, key sets, party infos, labels and claims sets encode to a value that decodes back to them (also through bytes for wire-normal values); the protected slot is the stored bytes / h'' / bstr(encoded map); Header::is_empty holds iff all eight fields are empty; header and key maps have distinct keys; no encoder panics. Missing as a theorem: the field-by-field round trip of Header and the message types; decided there by comparing the implementation's output byte-for-byte with an independent Python encoder of the CDDL shape (every field singly and in combination, single-field protected headers in all eight message types) and decoding it back.",
+      COMMON_NOTE, "DESIGN.md 7 (C11)")
+
 def main():
     props = sorted(TITLES)
     checks = []
